@@ -25,7 +25,7 @@ pub fn create_module() -> Scope {
             Ok(Value::Null)
         }
         Value::Map(map) => match s.get(name!(value))? {
-            Value::List(ref l, Some(ListSeparator::Space), _)
+            Value::List(ref l, Some(ListSeparator::Space), false)
                 if l.len() == 2 =>
             {
                 for (i, (k, v)) in map.iter().enumerate() {
